@@ -19,6 +19,7 @@ type Branch struct {
 	From string `json:"from"` // parent branch ("" for the trunk, which starts at genesis)
 	At   int    `json:"at"`   // height on the parent branch where this branch forks off
 	Len  int    `json:"len"`  // number of blocks
+	Pace string `json:"pace"` // fast | slow | "" (World.Pace)
 }
 
 // NodeSpec places a real node on the tree.
@@ -50,6 +51,8 @@ type Scenario struct {
 	NoAnnounce bool       `json:"noAnnounce"`
 	Announce   string     `json:"announce"` // header | outline | both (default both)
 	NoRetry    bool       `json:"noRetry"`
+	ShorterWinner bool    `json:"shorterWinner"` // premise of the scenario: the heaviest tip is NOT the longest
+	HardTarget bool       `json:"hardTarget"` // InitialTarget {0x00,0x10}: work per block diverges from 1, heaviest != longest
 	V1Window   string     `json:"v1Window"` // which heights in [allow, require) are v1 blocks (World.V1Window)
 	Probe      string     `json:"probe"` // directed reproduction, see probeOutlineSidechain
 }
@@ -121,6 +124,20 @@ func RunConverge(sc Scenario, slot int) (out *Outcome) {
 	w := NewWorld(sc.Allow, sc.Require, sc.Final)
 	w.Seed = fmt.Sprintf("%d|%s", hx.Seed(), sc.ID)
 	w.V1Window = sc.V1Window
+	w.Pace = map[string]string{}
+	for _, br := range sc.Branches {
+		w.Pace[br.Name] = br.Pace
+	}
+	if sc.HardTarget {
+		w.Net.InitialTarget = types.BlockID{0x00, 0x10}
+		// the genesis state depends on the target
+		_, cs, err := chain.NewDBStore(chain.NewMemDB(), w.Net, w.Genesis, nil)
+		if err != nil {
+			fail("infra:world", "%v", err)
+			return
+		}
+		w.state[w.Genesis.ID()] = cs
+	}
 	mgr, err := buildTree(w, sc.Branches)
 	if err != nil {
 		fail("infra:tree", "%v", err)
@@ -194,6 +211,16 @@ func RunConverge(sc Scenario, slot int) (out *Outcome) {
 		}
 	}
 	out.Heaviest = heaviest
+	if sc.ShorterWinner {
+		longer := false
+		for _, t := range tips {
+			longer = longer || w.HeightOf(t) > w.HeightOf(heaviest)
+		}
+		if !longer {
+			fail("infra:winner", "the heaviest tip %s is also the longest: the scenario's premise is broken", heaviest)
+			return
+		}
+	}
 
 	// start the nodes
 	addrRole := map[string]string{}
